@@ -27,8 +27,8 @@ Three ingredients:
 `Rewrite` (13 assertions on what a caller-supplied `Rewriter` answers) is `Model/RewriteChecked.lean`:
 no panic under the contract `KindPreserving`, a panic at each site without it; its type switch is
 compared with the regenerated `Gen.rewriteSwitch`. The protobuf codec of `Sources` (3 sites) is
-`Model/SourcesCodecChecked.lean`; there the property fails: `Sources.MarshalBinary` panics on the
-sources of `SELECT a FROM (SELECT a FROM m)` (`marshalBinary_panics_on_parsed_statement`).
+`Model/SourcesCodecChecked.lean` (`marshalBinary_no_panic`, `unmarshalBinary_no_panic`); before the
+repair `Sources.MarshalBinary` panicked on the sources of `SELECT a FROM (SELECT a FROM m)`.
 -/
 namespace InfluxQL.C13
 open InfluxQL Gen
@@ -74,8 +74,7 @@ def reviewedSites : List (String × String × String) := [
   ("SelectStatement.RewriteTimeFields", "slice", "s.Fields[:i]"),  -- i ranges over s.Fields
   ("SelectStatement.RewriteTimeFields", "slice", "s.Fields[i+1:]"),  -- i ranges over s.Fields
   ("SelectStatement.TimeAscending", "index", "s.SortFields[0]"),  -- guarded by len(s.SortFields) == 0 ||
-  ("Sources.MarshalBinary", "assert", "source.(*Measurement)"),  -- NOT safe: no type switch, no comma-ok; fires on a subquery source (marshalBinary_panics_iff; open finding)
-  ("Sources.MarshalBinary", "index", "pb.Items[i]"),  -- pb.Items made with len(a)
+  ("Sources.MarshalBinary", "index", "pb.Items[i]"),  -- pb.Items made with len(a); the assertion on the source is comma-ok since the fix: commit (a subquery source is an error)
   ("Sources.UnmarshalBinary", "index", "(*a)[i]"),  -- index within make(len)
   ("TypeValuerEval.evalCallExprType", "index", "args[i]"),  -- args made with len(expr.Args)
   ("ValuerEval.Eval", "index", "args[i]"),  -- args made with len(expr.Args)
@@ -221,7 +220,7 @@ def modelledSites : List Site := [
   sRegexVals0, sRegexValsI,
   sTimeFieldsIdx, sTimeFieldsPre, sTimeFieldsPost,
   sTimeAscending,
-  sMarshalAssert, sMarshalItems, sUnmarshalSlot,
+  sMarshalItems, sUnmarshalSlot,
   sEvalTypeArgs,
   sEvalArgs,
   sEvalMod, sEvalUIMod, sEvalDiv, sEvalUIDiv, sEvalIUMod, sEvalIUDiv,
@@ -253,19 +252,19 @@ breaks this obligation until the model has a primitive for it. -/
 theorem gen_modelled_sites :
     sitesAst.filter (fun s => modelledFunctions.contains s.1) = modelledSites := by decide
 
-/-- All 71 inventoried sites are checked primitives of a model with a theorem that says when they
-fire: never (most), never under a stated contract (`sort.Interface` indices, `Regex.wf`, `int64`
-integers, a kind-preserving `Rewriter`), or — one site, `source.(*Measurement)` in
-`Sources.MarshalBinary` — exactly on a `Sources` value that holds a subquery
-(`marshalBinary_panics_iff`, an open finding). -/
-theorem gen_modelled_sites_count : modelledSites.length = 71 ∧ sitesAst.length = 71 := by decide
+/-- All 70 inventoried sites are checked primitives of a model with a theorem that says when they
+fire: never, or never under a stated contract (`sort.Interface` indices, `Regex.wf`, `int64`
+integers, a kind-preserving `Rewriter`). (The 71st site of the earlier inventory,
+`source.(*Measurement)` in `Sources.MarshalBinary`, did fire on a subquery source; the repair made
+it a comma-ok assertion, which is not a panic site.) -/
+theorem gen_modelled_sites_count : modelledSites.length = 70 ∧ sitesAst.length = 70 := by decide
 
 /-- The 13 sites of `Rewrite` in the inventory are the sites the assertions of
 `Model/RewriteChecked.lean` carry. -/
 theorem gen_rewrite_sites :
     sitesAst.filter (fun s => s.1 == "Rewrite") = Checked.rewriteSites := by decide
 
-/-- The 3 sites of the `Sources` codec are the sites of `Model/SourcesCodecChecked.lean`. -/
+/-- The 2 sites of the `Sources` codec are the sites of `Model/SourcesCodecChecked.lean`. -/
 theorem gen_codec_sites :
     sitesAst.filter (fun s => s.1 == "Sources.MarshalBinary" || s.1 == "Sources.UnmarshalBinary")
       = Checked.codecSites := by decide
@@ -308,7 +307,7 @@ theorem gen_rewrite_switch :
 def reviewedCodecBodies : List (String × List String) := [
   ("Sources.MarshalBinary", ["var pb internal.Measurements",
     "pb.Items = make([]*internal.Measurement, len(a))",
-    "for i, source := range a { pb.Items[i] = encodeMeasurement(source.(*Measurement)) }",  -- marshalItems, marshalOne
+    "for i, source := range a { mm, ok := source.(*Measurement) if !ok { return nil, fmt.Errorf(\"cannot encode source of type %T: only measurements can be encoded\", source) } pb.Items[i] = encodeMeasurement(mm) }",  -- marshalItems, marshalOne, errNotMeasurement
     "return proto.Marshal(&pb)"]),
   ("Sources.UnmarshalBinary", ["var pb internal.Measurements",
     "if err := proto.Unmarshal(buf, &pb); err != nil { return err }",
@@ -593,62 +592,43 @@ theorem rewrite_contract_necessary (rw : Node → Node) (e : Expr) (m : Node)
 Between the `Sources` value and the record list handed to / received from the protobuf library. -/
 
 open Checked in
-/-- **C13 (Sources.MarshalBinary), partial.** On a `Sources` value whose elements are all
-measurements the assertion `source.(*Measurement)` holds and the stores `pb.Items[i]` are in
-range: the record list is the list of encoded measurements. -/
-theorem marshalBinary_no_panic_partial (a : List Source) (h : ∀ s ∈ a, (sourceAsMeasurement s).isSome) :
-    marshalItems a = .ok (a.map marshalSlot) := marshalItems_of_measurements a h
+/-- **C13 (Sources.MarshalBinary).** For every `Sources` value the function returns: if all
+elements are measurements, the record list of the encoded measurements (the stores `pb.Items[i]`
+are in range); if an element is a subquery, the error `cannot encode source of type
+*influxql.SubQuery: only measurements can be encoded`. Never a panic.
 
-open Checked in
-/-- **C13 is violated by `Sources.MarshalBinary`.** It panics — at `source.(*Measurement)` — exactly
-when the `Sources` value holds a subquery: the function asserts `*Measurement` for every element
-without a type switch or comma-ok, and `*SubQuery` is the other `Source` type. -/
-theorem marshalBinary_panics_iff (a : List Source) :
-    marshalItems a = .panic sMarshalAssert.str ↔ ∃ s ∈ a, ∃ sub, s = .subquery sub := by
-  constructor
-  · intro hp
-    by_cases h : ∀ s ∈ a, (sourceAsMeasurement s).isSome
-    · rw [marshalItems_of_measurements a h] at hp; cases hp
-    · simp only [Classical.not_forall] at h
-      obtain ⟨s, hs, hn⟩ := h
-      cases s with
-      | measurement m => exact absurd rfl hn
-      | subquery sub => exact ⟨_, hs, sub, rfl⟩
-  · rintro ⟨s, hs, sub, rfl⟩
-    exact marshalItems_of_subquery a ⟨_, hs, rfl⟩
+History: before the repair (`fix:` commit in /repo) the loop asserted `source.(*Measurement)` without
+comma-ok and `MarshalBinary` panicked on the sources of `SELECT a FROM (SELECT a FROM m)`
+(`interface conversion: influxql.Source is *influxql.SubQuery, not *influxql.Measurement`); this
+model then had the theorems `marshalBinary_panics_iff` / `marshalBinary_panics_on_parsed_statement`. -/
+theorem marshalBinary_no_panic (a : List Source) :
+    ((∀ s ∈ a, (sourceAsMeasurement s).isSome) ∧ marshalItems a = .ok (a.map marshalSlot)) ∨
+    ((∃ s ∈ a, ∃ sub, s = .subquery sub) ∧ marshalItems a = .err errNotMeasurement) := by
+  by_cases h : ∀ s ∈ a, (sourceAsMeasurement s).isSome
+  · exact .inl ⟨h, marshalItems_of_measurements a h⟩
+  · simp only [Classical.not_forall] at h
+    obtain ⟨s, hs, hn⟩ := h
+    cases s with
+    | measurement m => exact absurd rfl hn
+    | subquery sub => exact .inr ⟨⟨_, hs, sub, rfl⟩, marshalItems_of_subquery a ⟨_, hs, rfl⟩⟩
 
 /-- `SELECT a FROM (SELECT a FROM m)`. -/
 def marshalWitnessText : Str :=
   ['S','E','L','E','C','T',' ','a',' ','F','R','O','M',' ','(','S','E','L','E','C','T',' ','a',' ','F','R','O','M',' ','m',')']
 
-/-- "The text parses to a SELECT whose `Sources.MarshalBinary()` panics", as a computation. -/
-def parsesAndMarshalPanics (r : Except Fail Statement) : Bool :=
+/-- "The text parses to a SELECT whose `Sources.MarshalBinary()` returns the error", as a computation. -/
+def parsesAndMarshalErrs (r : Except Fail Statement) : Bool :=
   match r with
-  | .ok (.select s) => (Checked.marshalItems s.sources).isPanic
+  | .ok (.select s) =>
+    match Checked.marshalItems s.sources with
+    | .err m => m == Checked.errNotMeasurement
+    | _ => false
   | _ => false
 
-open Checked in
-/-- **Counterexample on a parsed statement** (kernel-evaluated with the model's parser): the statement
-`SELECT a FROM (SELECT a FROM m)` is accepted, and `MarshalBinary` on its `Sources` panics.
-Confirmed on the Go code: `interface conversion: influxql.Source is *influxql.SubQuery, not
-*influxql.Measurement`. -/
-theorem marshalBinary_panics_on_parsed_statement :
-    ∃ s, parseStatementText marshalWitnessText [] [] = .ok (.select s) ∧
-      marshalItems s.sources = .panic sMarshalAssert.str := by
-  have h : parsesAndMarshalPanics (parseStatementText marshalWitnessText [] []) = true := by decide +kernel
-  unfold parsesAndMarshalPanics at h
-  split at h
-  · rename_i s heq
-    refine ⟨s, heq, ?_⟩
-    by_cases hm : ∀ x ∈ s.sources, (sourceAsMeasurement x).isSome
-    · rw [marshalItems_of_measurements _ hm] at h; cases h
-    · simp only [Classical.not_forall] at hm
-      obtain ⟨x, hx, hn⟩ := hm
-      refine marshalItems_of_subquery _ ⟨x, hx, ?_⟩
-      cases x with
-      | measurement m => exact absurd rfl hn
-      | subquery sub => rfl
-  · cases h
+/-- The statement on which the pre-repair code panicked (kernel-evaluated with the model's parser):
+`SELECT a FROM (SELECT a FROM m)` is accepted, and `MarshalBinary` on its `Sources` is now the error. -/
+theorem marshalBinary_error_on_former_witness :
+    parsesAndMarshalErrs (parseStatementText marshalWitnessText [] []) = true := by decide +kernel
 
 open Checked in
 /-- **C13 (Sources.UnmarshalBinary).** On every record list the protobuf library can hand back,
